@@ -1,6 +1,7 @@
 from operator import xor
 
 import numpy as np
+from pb_bss import _verif
 from dataclasses import dataclass
 from pb_bss.distribution.mixture_model_utils import (
     estimate_mixture_weight,
@@ -145,6 +146,8 @@ class VMFMMTrainer:
                 min_concentration=min_concentration,
                 max_concentration=max_concentration,
             )
+            if _verif.ENABLED:
+                _verif.step(self, iteration, model, affiliation)
 
         return model
 
